@@ -254,6 +254,62 @@ def worker(shard, part):
                 r2 = e
             if not ok:
                 part.violation("getitem:result-mutation-leaks-into-the-array", {"form": "mutate", "kind": kind, "shape": [h, w], "key": repr(k)}, {"observed": repr(r2)[:200]})
+        if h and w:
+            # ONE coordinate-list object edited in place (same length) between look-ups, also across two arrays of one shape
+            L = [[y * w + x for x in range(w)] for y in range(h)]
+            other = make_array("int" if kind == "bool" else "bool", h, w)
+
+            def want(cells):
+                try:
+                    return tuple(L[y][x] for (y, x) in cells)
+                except IndexError:
+                    return "IndexError"
+
+            def got(arr, cells):
+                o = observe(lambda: arr[cells])
+                base = min(getattr(v, "id", 0) for v in arr.data)
+                return tuple(i - base for i in o[2]) if o[0] == "1d" else o[0]
+
+            edits = [("reverse", lambda c: c.reverse()), ("sort", lambda c: c.sort()), ("set-first", lambda c: c.__setitem__(0, (h - 1, 0))),
+                     ("set-out-of-range", lambda c: c.__setitem__(len(c) - 1, (h, 0))), ("restore", lambda c: c.__setitem__(len(c) - 1, (0, 0)))]
+            cells = [(h - 1, w - 1), (0, 0), (0, w - 1)]
+            for arrs in ((a, a), (a, other), (other, a)):
+                cells[:] = [(h - 1, w - 1), (0, 0), (0, w - 1)]
+                part.count("evaluations")
+                steps = []
+                ok = got(arrs[0], cells) == want(cells)
+                for name, edit in edits:
+                    edit(cells)
+                    steps.append(name)
+                    for arr in arrs:
+                        if got(arr, cells) != want(cells):
+                            ok = False
+                    if not ok:
+                        break
+                if not ok:
+                    part.violation("coordlist:stale-after-in-place-edit", {"form": "mutate", "kind": kind, "shape": [h, w], "key": "coordinate list edited in place: " + ",".join(steps)}, {"cells_now": [list(c) for c in cells]})
+            # an instance of a user subclass with its own constructor signature is indexed like any other array
+            base_cls = type(a)
+
+            class Board(base_cls):
+                def __init__(self, src, title):
+                    base_cls.__init__(self, list(src.data), src.shape)
+                    self.title = title
+
+            b = Board(a, "board")
+            base = min(v.id for v in a.data)
+            for ky in (0, -1, slice(None), slice(None, None, -1), slice(0, 1)):
+                for kx in (0, slice(None), slice(1, None), slice(None, None, -2)):
+                    part.count("evaluations")
+                    o_plain, o_sub = observe(lambda: a[ky, kx]), observe(lambda: b[ky, kx])
+                    if o_plain[:3] != o_sub[:3]:
+                        part.violation("getitem:subclass-instance-differs", {"form": "mutate", "kind": kind, "shape": [h, w], "key": "subclass instance [%s, %s]" % (key_repr(ky), key_repr(kx))},
+                                       {"plain": repr(o_plain)[:150], "subclass": repr(o_sub)[:150]})
+            for k1 in (0, slice(None), slice(1, None)):
+                part.count("evaluations")
+                o_plain, o_sub = observe(lambda: a[k1]), observe(lambda: b[k1])
+                if o_plain[:3] != o_sub[:3]:
+                    part.violation("getitem:subclass-instance-differs", {"form": "mutate", "kind": kind, "shape": [h, w], "key": "subclass instance [%s]" % key_repr(k1)}, {"plain": repr(o_plain)[:150], "subclass": repr(o_sub)[:150]})
         part.add("mutate", (kind, h, w))
     elif what == "scale":
         # big arrays around the classic thresholds (32 columns, 256 / 257 cells, 1000+ cells) with a fixed key menu
